@@ -23,10 +23,10 @@ PROBES = {
     "C08": ["call:accept-first", "call:reject-then-accept", "call:exhausted", "call:raise-first-trial",
             "call:raise-after-reject", "call:zero-step", "reject=0", "strategy:Constant", "strategy:Adaptive",
             "strategy:TrustRegion", "damping:clamped-min", "damping:clamped-max", "trust:down-shrunk",
-            "trust:down-reset", "GN", "group-param", "float32", "scripted", "input-form:dict", "input-form:list", "input-form:single"],
+            "trust:down-reset", "GN", "group-param", "float32", "scripted", "ctor-defaults", "input-form:dict", "input-form:list", "input-form:single"],
     "C07": ["lm:first-trial", "lm:trial>=2", "gn", "weights:RR", "weights:NRR", "weights:full", "weights:refreshed-in-place", "weights:per-call-alternating", "kernel", "triggs",
             "clamp-min-bites", "clamp-max-bites", "frozen-param", "group-param", "vectorize-off", "two-residuals",
-            "unused-columns", "input-form:dict", "input-form:list", "input-form:single"],
+            "unused-columns", "ctor-defaults", "input-form:dict", "input-form:list", "input-form:single"],
 }
 TS = float(os.environ.get("PPSIM_TOLSCALE", "1"))
 EXC = {"RuntimeError": RuntimeError, "ValueError": ValueError, "AssertionError": AssertionError,
@@ -71,7 +71,7 @@ def generate(seed, tier, prop="C08"):
            "weights": r.choice(["none", "RR", "NRR", "full"]) if (prop == "C07" and not scripted) else
                       r.choice(["none", "none", "RR"]) if not scripted else "none",
            "weight_at": r.choice(["ctor", "step", "alternate"]), "reweight": r.random() < 0.3, "vectorize": r.random() < 0.8,
-           "input_form": r.choice(["tuple", "tuple", "list", "dict", "single"]),
+           "input_form": r.choice(["tuple", "tuple", "list", "dict", "single"]), "ctor_defaults": r.random() < 0.2,
            "dtype": "f64" if (prop == "C07" or r.random() < 0.6) else "f32",
            "target": (not scripted) and r.random() < 0.3, "spec": spec}
     if cfg["max"] < cfg["min"]:
@@ -390,12 +390,30 @@ def execute(plan, prop, out, tr):
             real = pp.optim.strategy.Adaptive(**{k: st[k] for k in ("damping", "high", "low", "up", "down", "min", "max")})
         else:
             real = pp.optim.strategy.TrustRegion(**{k: st[k] for k in ("radius", "high", "low", "up", "down", "factor", "min", "max")})
-        strat = StrategyProxy(real, model)
-        opt = pp.optim.LM(model, solver=solver, strategy=strat, kernel=kern, corrector=corr, weight=ctor_w,
-                          reject=c["reject"], min=c["min"], max=c["max"], vectorize=c["vectorize"])
+        if c.get("ctor_defaults"):
+            # default construction: LM builds its own Cholesky solver and TrustRegion strategy; the proxies are
+            # slipped around those objects afterwards (solver / strategy are plain attributes of the optimizer)
+            opt = pp.optim.LM(model, kernel=kern, corrector=corr, weight=ctor_w, reject=c["reject"], vectorize=c["vectorize"])
+            real = opt.strategy
+            solver.inner = opt.solver
+            strat = StrategyProxy(real, model)
+            opt.solver, opt.strategy = solver, strat
+            st = {"kind": type(real).__name__, "down": getattr(real, "down", None), "min": getattr(real, "min", None),
+                  "max": getattr(real, "max", None)}
+            c = dict(c, min=1e-6, max=1e32, strategy=st)
+            out.probe("ctor-defaults")
+        else:
+            strat = StrategyProxy(real, model)
+            opt = pp.optim.LM(model, solver=solver, strategy=strat, kernel=kern, corrector=corr, weight=ctor_w,
+                              reject=c["reject"], min=c["min"], max=c["max"], vectorize=c["vectorize"])
         out.probe("strategy:" + st["kind"])
     else:
-        opt = pp.optim.GN(model, solver=solver, kernel=kern, corrector=corr, weight=ctor_w, vectorize=c["vectorize"])
+        if c.get("ctor_defaults"):
+            opt = pp.optim.GN(model, kernel=kern, corrector=corr, weight=ctor_w, vectorize=c["vectorize"])
+            solver.inner = opt.solver; opt.solver = solver
+            out.probe("ctor-defaults")
+        else:
+            opt = pp.optim.GN(model, solver=solver, kernel=kern, corrector=corr, weight=ctor_w, vectorize=c["vectorize"])
         out.probe("GN" if prop == "C08" else "gn")
     if any(ps["kind"] == "grp" for ps in kinds):
         out.probe("group-param")
